@@ -749,6 +749,15 @@ class XMLConverter(PDFConverter[AnyIO]):
             text = self.CONTROL.sub("", text)
         self.write(enc(text))
 
+    def enc_attr(self, value: str) -> str:
+        """Escape an attribute value taken from the document.
+
+        Control characters cannot be written in XML at all, escaped or not.
+        """
+        if isinstance(value, str):
+            value = self.CONTROL.sub("", value)
+        return enc(value)
+
     def receive_layout(self, ltpage: LTPage) -> None:
         def show_group(item: LTItem) -> None:
             if isinstance(item, LTTextBox):
@@ -799,7 +808,7 @@ class XMLConverter(PDFConverter[AnyIO]):
                 )
                 self.write(s)
             elif isinstance(item, LTFigure):
-                s = f'<figure name="{enc(item.name)}" bbox="{bbox2str(item.bbox)}">\n'
+                s = f'<figure name="{self.enc_attr(item.name)}" bbox="{bbox2str(item.bbox)}">\n'
                 self.write(s)
                 for child in item:
                     render(child)
@@ -827,7 +836,7 @@ class XMLConverter(PDFConverter[AnyIO]):
                     '<text font="%s" bbox="%s" colourspace="%s" '
                     'ncolour="%s" size="%.3f">'
                     % (
-                        enc(item.fontname),
+                        self.enc_attr(item.fontname),
                         bbox2str(item.bbox),
                         item.ncs.name,
                         item.graphicstate.ncolor,
@@ -844,7 +853,7 @@ class XMLConverter(PDFConverter[AnyIO]):
                     name = self.imagewriter.export_image(item)
                     self.write(
                         '<image src="%s" width="%d" height="%d" />\n'
-                        % (enc(name), item.width, item.height),
+                        % (self.enc_attr(name), item.width, item.height),
                     )
                 else:
                     self.write(
